@@ -81,7 +81,11 @@ def run(names, deep=False, timeout=600):
         try:
             p = subprocess.run(cmd, stdout=subprocess.PIPE, stderr=subprocess.DEVNULL, timeout=timeout)
             lines = [l for l in p.stdout.decode('utf-8', 'replace').split('\n') if l.startswith(('PASS', 'FAIL'))]
-            if not lines:
+            if not lines and p.returncode < 0:
+                # killed by a signal (SIGABRT): a panic escaped catch_unwind - raised inside a Drop while unwinding or in a no-unwind context
+                out.append({'check': n, 'status': 'ABORT', 'bound': BOUNDS.get(n, ''), 'cmd': ' '.join(cmd),
+                            'detail': 'the oracle process was killed by signal %d while running %s: a panic of the library escaped every handler (panic inside Drop / while unwinding)' % (-p.returncode, n)})
+            elif not lines:
                 out.append({'check': n, 'status': 'ERROR', 'detail': 'no verdict line (exit %d)' % p.returncode})
             for l in lines:
                 st, _, rest = l.partition(' ')
